@@ -383,6 +383,23 @@ func genAgg(seed uint64, tier string, emphasis int) *plan.Plan {
 			}
 		}
 	}
+	if emphasis == 2 && pl.Cfg["unres_key"] == 0 {
+		// One inter-node flow whose 5-tuple is taken over by a replacement Pod on the source node: every
+		// other record of that node names another source Pod. They are records of one node all the same -
+		// the flow stays withheld until the destination node is seen. A stream of its own again.
+		r4 := rand.New(rand.NewPCG(seed, 0xc07b))
+		if r4.IntN(4) == 0 {
+			var cand []int
+			for k, f := range flows {
+				if f.cat == catInter || f.cat == catInterIngDrop {
+					cand = append(cand, k)
+				}
+			}
+			if len(cand) > 0 {
+				pl.Cfg["podswap_key"] = int64(1 + cand[r4.IntN(len(cand))])
+			}
+		}
+	}
 	if r.IntN(5) == 0 {
 		// records through the built-in worker pool, workers interleaved by the scheduler
 		pl.Cfg["pool"] = 1
